@@ -14,6 +14,7 @@
 //   - EVERY call index of EVERY component is failed in turn (plain error), plus the index one past
 //     the last call (a fault that is never reached), plus variants: sticky faults, errors that
 //     already carry an atree category, a failing digester that hands back another key's digest.
+//
 // Recorded per lookup and compared with the model: the result class (value / not found / failure of
 // component c with category) and the complete ordered list of component calls with their arguments
 // (key hashed, digest level, stored key compared, slab read).
@@ -23,6 +24,7 @@
 //   - no call failed => the shadow dictionary's answer;
 //   - a lookup writes nothing (write set empty, ledger unchanged) and the fault-free lookup that
 //     follows a failed one gives the shadow dictionary's answer.
+//
 // Recorded as events, never as violations (DESIGN 7.3 observations): a digester error at level >= 1 is
 // dropped (map_element.go:366,568); an error that already is an atree User/Fatal error keeps its
 // category (errors.go:501); a KeyNotFoundError returned by a component makes Has answer false.
